@@ -58,6 +58,18 @@ def eval_zone(case):
         elif not isdst and got[2] != 0:
             if len(viols) < 3:
                 viols.append({'kind': 'dst-nonzero-on-standard-type', 'zone': label, 'utc': u, 'got': got[2]})
+    # instants with a sub-second part just before / after each transition (also negative timestamps)
+    for t in zone.times:
+        for us, ref_u in ((-1, t - 1), (1, t), (-999999, t - 1), (999999, t)):
+            if not (zone.times[0] <= ref_u < zone.times[-1]) or not (-2 ** 31 + 86400 * 2 <= t <= 2 ** 31 - 86400 * 2):
+                continue
+            n += 1
+            off, isdst, abbr = zone.at(ref_u)
+            loc = (tzwalk.utc_aware(t) + D.timedelta(microseconds=us)).astimezone(z)
+            got = (loc.utcoffset().total_seconds(), loc.tzname())
+            if got != (off, abbr) and len(viols) < 3:
+                viols.append({'kind': 'wrong-offset-or-abbreviation', 'zone': label, 'utc': t, 'microseconds': us,
+                              'got': got, 'expected': (off, abbr), 'where': 'in-range-subsecond'})
     x = tzif_ref.crosscheck_zoneinfo(case[1], zone, probes[::5]) if case[0] == 'file' else 0
     return Res(trans=n, viols=viols, nontrivial=len(zone.times) > 0,
                extra={'in_range_probes': n_in, 'transitions_walked': len(zone.times), 'reference_crosscheck_mismatch': x},
